@@ -75,7 +75,7 @@ func (e EnumSchema[S, T]) ValidateCompatibility(typeOrData any) error {
 		switch {
 		case (selfDisplayValue == nil || selfDisplayValue.Name() == nil) &&
 			(otherDisplayValue == nil || otherDisplayValue.Name() == nil):
-			return nil
+			continue // Neither side names this value; the remaining values still have to be checked.
 		case otherDisplayValue == nil || otherDisplayValue.Name() == nil:
 			return &ConstraintError{
 				Message: fmt.Sprintf("display values for key %s is missing in compared data %T",
